@@ -579,9 +579,13 @@ Section Emit.
         let n := exprs_length items in
         for_gen (S sp) h qk (fun h1 => emit g sp h1 q)
           (fun _ => set_count (S sp) n)
-          (fun hh =>
-             set_var sp TBool
-               (load_var (S (S sp)) TInt hh ++ switch (emit_items true g (sp + OF_FRAME)%nat hh n 0 items)))
+          (* commit 99b031b0: an undefined item flags the item variable, and is
+             raised by the body, inside the per-iteration handler *)
+          (fun _ =>
+             catch_undef 0
+               (fun hc => set_var sp TBool
+                            (load_var (S (S sp)) TInt hc ++ switch (emit_items true g (sp + OF_FRAME)%nat hc n 0 items)))
+               (set_var_undef sp true))
           (fun h' => load_var sp TBool h')
           (fun _ => [])
     | EForTuple qk q x items body =>
